@@ -412,3 +412,96 @@ class SocksPeer:
             else:
                 break
         return out
+
+
+class H2Decoder:
+    """Independent HTTP/2 reader (hyperframe + hpack, not the h2 state machine): splits the
+    client's byte stream into frames and decodes header blocks."""
+
+    PREFACE = b"PRI * HTTP/2.0\r\n\r\nSM\r\n\r\n"
+
+    def __init__(self):
+        import hpack
+
+        self.buf = b""
+        self.preface = False
+        self.frames = []  # (type name, stream id, flags set, payload summary)
+        self.headers = {}  # stream id -> list of (name, value)
+        self.data = {}  # stream id -> bytes
+        self.ended = set()
+        self.dec = hpack.Decoder()
+        self.dec.max_allowed_table_size = 1 << 16
+        self._hb = {}  # stream id -> pending header block fragments
+        self.error = None
+        self.settings = []
+        self.window_updates = []
+        self.rst = []
+
+    def feed(self, data):
+        import hyperframe.frame as hf
+
+        self.buf += data
+        if not self.preface:
+            if len(self.buf) < len(self.PREFACE):
+                if not self.PREFACE.startswith(self.buf):
+                    self.error = "bad preface"
+                return []
+            if not self.buf.startswith(self.PREFACE):
+                self.error = "bad preface"
+                return []
+            self.preface = True
+            self.buf = self.buf[len(self.PREFACE):]
+        new = []
+        while len(self.buf) >= 9:
+            try:
+                f, length = hf.Frame.parse_frame_header(memoryview(self.buf[:9]))
+            except Exception as e:  # unknown frame type etc.
+                self.error = "frame header: %r" % (e,)
+                return new
+            if len(self.buf) < 9 + length:
+                break
+            body = self.buf[9 : 9 + length]
+            self.buf = self.buf[9 + length :]
+            try:
+                f.parse_body(memoryview(body))
+            except Exception as e:
+                self.error = "frame body: %r" % (e,)
+                return new
+            name = type(f).__name__.replace("Frame", "").upper()
+            flags = set(f.flags)
+            sid = f.stream_id
+            self.frames.append((name, sid, flags, length))
+            new.append(f)
+            if name in ("HEADERS", "CONTINUATION"):
+                self._hb.setdefault(sid, []).append(bytes(f.data))
+                if "END_HEADERS" in flags:
+                    block = b"".join(self._hb.pop(sid))
+                    try:
+                        hs = self.dec.decode(block, raw=True)
+                    except Exception as e:
+                        self.error = "hpack: %r" % (e,)
+                        hs = []
+                    self.headers.setdefault(sid, []).extend((bytes(k), bytes(v)) for k, v in hs)
+                if "END_STREAM" in flags:
+                    self.ended.add(sid)
+            elif name == "DATA":
+                self.data[sid] = self.data.get(sid, b"") + bytes(f.data)
+                if "END_STREAM" in flags:
+                    self.ended.add(sid)
+            elif name == "SETTINGS":
+                self.settings.append((dict(f.settings), "ACK" in flags))
+            elif name == "WINDOWUPDATE":
+                self.window_updates.append((sid, f.window_increment))
+            elif name == "RSTSTREAM":
+                self.rst.append((sid, f.error_code))
+        return new
+
+    def flat(self):
+        """Everything readable the client sent, for marker searches."""
+        out = b""
+        for sid, hs in self.headers.items():
+            for k, v in hs:
+                out += k + b": " + v + b"\n"
+        for sid, d in self.data.items():
+            out += d
+        return out
